@@ -31,7 +31,7 @@ import os, sys, json, time, hashlib, signal, traceback, tempfile, select, resour
 from . import findings
 
 VERIF = os.path.dirname(os.path.dirname(os.path.abspath(__file__)))
-HANG = float(os.environ.get('VERIF_HANG', '180'))
+HANG = float(os.environ.get('VERIF_HANG', '240'))
 
 
 def jdump(o):
